@@ -234,6 +234,10 @@ type behContext struct {
 	One    behCase
 }
 
+// behCompileErrIsViolation: the running property treats a non-compiling output as its own
+// violation (C14: a reference that resolves to a non-existent or wrong package).
+var behCompileErrIsViolation bool
+
 // behBatch runs the members through the tool, builds and probes the accepted ones in
 // one batch and calls check for each. Members the tool rejects are handed to
 // onReject (nil = count as excluded). Returns the number of members probed.
@@ -285,6 +289,10 @@ func behBatch(t tb, c behCase, nontrivial func(m behMember, merged cfg.Config) b
 	dropped, probed := 0, 0
 	for _, bc := range ctxs {
 		cn := bc.Cont
+		if cn.CompileErr != "" && behCompileErrIsViolation {
+			violation(t, "compile:"+compileKey(cn.CompileErr), "generated code does not compile: "+oneLine(cn.CompileErr), bc.One)
+			continue
+		}
 		if cn.CompileErr != "" || cn.Crashed != "" || cn.Out == nil || !cn.Out.Alive {
 			dropped++
 			col.Exclude("not-compiling-or-not-alive")
@@ -323,8 +331,18 @@ func checkAgainstModel(t tb, bc behContext, keyPrefix string) bool {
 			got := res[i]
 			i++
 			switch op.Op {
-			case "methods", "counters", "istagged", "getter", "must", "par":
+			case "methods", "istagged", "getter", "must", "par":
 				continue // checked by the property-specific code
+			case "new":
+				d = ref.NewDI(bc.Merged, bc.M.Script.Env)
+				b = newBij()
+				continue
+			case "counters":
+				if err := matchCounters(d.Counters, got.Counters); err != nil {
+					violation(t, keyPrefix+"invocation-counters", err.Error(), bc.One)
+					return false
+				}
+				continue
 			}
 			exp := d.Exec(modelOp(op))
 			if exp.Skip {
@@ -340,6 +358,28 @@ func checkAgainstModel(t tb, bc behContext, keyPrefix string) bool {
 		}
 	}
 	return true
+}
+
+// matchCounters compares the invocation counters of fixture functions and constructors.
+func matchCounters(exp, got map[string]int) error {
+	keys := map[string]bool{}
+	for k := range exp {
+		keys[k] = true
+	}
+	for k := range got {
+		keys[k] = true
+	}
+	var ks []string
+	for k := range keys {
+		ks = append(ks, k)
+	}
+	sort.Strings(ks)
+	for _, k := range ks {
+		if exp[k] != got[k] {
+			return fmt.Errorf("invocation counter %s: expected %d, observed %d (all observed: %v)", k, exp[k], got[k], got)
+		}
+	}
+	return nil
 }
 
 func classifyMismatch(msg string) string {
